@@ -1010,6 +1010,10 @@ class Emitter:
             # local (goto-instrument --dfcc gives static objects an arbitrary initial value, which is not what C++ does)
             self.report["function-local static pointers to string literals (never reassigned) emitted as plain locals"] += 1
             st = ""
+        if st and init and v.get("constexpr") and not vt.ptr and not vt.dims and vt.base in SCALARS.values() and not self._var_written(self.cur["decl"], v["id"]):
+            # static constexpr scalar: a compile-time constant; emitted as a plain local for the same reason
+            self.report["function-local static constexpr scalars emitted as plain locals"] += 1
+            st = ""
         if not init:
             return pad + st + vt.decl(name) + ";"
         i0 = init[0]
